@@ -30,7 +30,7 @@ def units(tier, seed):
     for p in (1, 2, 3):
         dags = SP.dag_list(p)
         for part in split_list(dags, 12 if p == 3 else 1):
-            out.append({"stage": "lganm", "p": p, "codes": [c for c, _ in part], "labs": ["generic", "cancel", "int"]})
+            out.append({"stage": "lganm", "p": p, "codes": [c for c, _ in part], "labs": ["generic", "cancel", "int", "intmodel"]})
     dags4 = SP.dag_list(4)
     dags4 = dags4 if tier == "thorough" else dags4[::30]
     for part in split_list(dags4, 181 if tier == "thorough" else 19):
@@ -126,7 +126,10 @@ def check_dist(p, L, mu, dtype):
 
 def check_lganm(p, code, lab, assign):
     ch, _ = G.decode(p, code)
-    W, means, variances = SP.model(p, ch, lab if lab != "int" else "int", "float" if lab != "int" else "intW")
+    if lab == "intmodel":          # int64 W, means and variances with fractional intervention parameters
+        W, means, variances = SP.model(p, ch, "int", "int")
+    else:
+        W, means, variances = SP.model(p, ch, lab if lab != "int" else "int", "float" if lab != "int" else "intW")
     lib, ora = SP.assignment_dicts(p, assign, "tuple")
     desc0 = "LGANM(W=%s, means=%s, variances=%s) under do=%s noise=%s shift=%s" % (W.tolist(), means.tolist(), variances.tolist(), lib[0], lib[1], lib[2])
     try:
@@ -208,7 +211,7 @@ def describe(tier, seed):
                 "regressor sequence (all subsets incl. empty and those containing y, every permutation) in list/ndarray/int/range/tuple forms: "
                 "coefficients vs exact solution, zero outside S, exact orthogonality of the residual, intercept, mse = exact conditional "
                 "variance (>=0, independent of the means; order invariance and monotonicity follow from equality with the exact value for "
-                "every order and every subset); for every LGANM p<=3 (3 weight labelings; p=4 generic weights every 30th DAG quick / all "
+                "every order and every subset); for every LGANM p<=3 (3 weight labelings and an all-int64 model; p=4 generic weights every 30th DAG quick / all "
                 "thorough) under all 8^p intervention assignments with positive variances: regress(j, pa(j)) = incoming weights, noise mean, "
                 "noise variance of the intervened model. non-trivial: correlated variables / intervened model with edges",
         "exhaustive": True,
